@@ -71,6 +71,18 @@ class Ctx:
                                            facts, nontrivial))
         return bool(ok)
 
+    def unrecognised(self, rule: str, site, msg: str, key: Optional[str] =
+                     None):
+        """a *secondary* rule whose idiom is not present in this tree: the
+        rule is not applied (recorded in the evidence as not decided); unlike
+        `undecidable` this does not fail the check. Reserved for fine-grained
+        clauses added on top of a property's core rules, where an unknown
+        formulation is far more likely a refactoring than a defect."""
+        self.ob(rule, site, True, "NOT DECIDED (idiom not recognised, rule "
+                "not applied): " + msg, key=key or f"{rule}:not-applied",
+                nontrivial=False)
+        self.notes.append(f"{rule}: not applied: {msg}")
+
     def section(self, fn, *args, **kw):
         """run one independent group of rules; an anchor or idiom it needs
         that is missing makes that group undecidable, not the others"""
